@@ -315,12 +315,6 @@ def WSys.storeOp (s : WSys) (now : Nat) (op : Op) : WSys × Out :=
     | none => (s', out)
   | _, _ => (s', out)
 
-/-- is this the outcome of a write that went through? -/
-def Out.isWrite : Out → Bool
-  | .wrote _ => true
-  | .ok => true
-  | _ => false
-
 /-- a store operation over a backing store (inmem.WithBackingStore): the collection calls the
     backing store after its own checks and BEFORE it touches its memory or publishes
     (collection.go Create/Update/Destroy: `collection.store.Put/Destroy` precedes
@@ -328,9 +322,6 @@ def Out.isWrite : Out → Bool
     `Gen.Store.storeBeforeMemory`); when the backing store rejects the call the operation
     fails with that error and nothing else happens. `reject` says whether the backing
     store rejects the call this operation makes, if it makes one. -/
-def Op.isWrite : Op → Bool
-  | .create .. => true | .update .. => true | .destroy .. => true | _ => false
-
 def WSys.storeOpBS (s : WSys) (reject : Bool) (now : Nat) (op : Op) : WSys × Out :=
   if reject && op.isWrite && (s.storeOp now op).2.isWrite then
     -- fail closed: if the regenerated order is not "backing store first", the memory write has happened
